@@ -73,27 +73,28 @@ func runC37(c *an.Ctx) {
 	// comparisons of a Bucket.Len() result with rt.bucketsize
 	asNoRoom := map[ssa.Value]an.Abs{}
 	nCmp := 0
-	for _, v := range an.FindValues(update, func(v ssa.Value) bool {
-		b, ok := v.(*ssa.BinOp)
-		if !ok {
-			return false
-		}
-		k, isK := b.X.(*ssa.Call)
-		if !isK || an.CalleeObj(k.Common()) != blen {
-			return false
-		}
-		f := fieldOfLoad(b.Y)
+	// "there is room": Len() < bucketsize, in any spelling (bucketsize > Len(), !(Len() >= bucketsize), ...)
+	isLenCall := func(x ssa.Value) bool {
+		k, isK := x.(*ssa.Call)
+		return isK && an.CalleeObj(k.Common()) == blen
+	}
+	isBucketSize := func(y ssa.Value) bool {
+		f := fieldOfLoad(y)
 		return f != nil && f.Name() == "bucketsize"
-	}) {
-		b := v.(*ssa.BinOp)
+	}
+	lenCallOf := func(cmp ssa.Value) *ssa.Call {
+		b := cmp.(*ssa.BinOp)
+		if isLenCall(b.X) {
+			return b.X.(*ssa.Call)
+		}
+		return b.Y.(*ssa.Call)
+	}
+	for _, v := range an.FindValues(update, func(v ssa.Value) bool { m, _ := relMatch(v, token.LSS, isLenCall, isBucketSize); return m }) {
 		nCmp++
-		switch b.Op {
-		case token.LSS:
+		if _, roomWhenTrue := relMatch(v, token.LSS, isLenCall, isBucketSize); roomWhenTrue {
 			asNoRoom[v] = an.AFalse
-		case token.GEQ:
+		} else {
 			asNoRoom[v] = an.ATrue
-		default:
-			c.Violate("guard|RouteTable.Update|capacity-comparison-form", "the capacity test is Len() < bucketsize or Len() >= bucketsize", c.P.Rel(b.Pos()), "comparison operator "+b.Op.String())
 		}
 	}
 	_ = capacity
@@ -135,7 +136,7 @@ func runC37(c *an.Ctx) {
 	for _, pa := range pushesAt {
 		found := false
 		for cmp := range asNoRoom {
-			lk := cmp.(*ssa.BinOp).X.(*ssa.Call)
+			lk := lenCallOf(cmp)
 			if recvOf(lk.Common()) == pa.recv && lk.Block().Dominates(pa.at.Block()) {
 				found = true
 			}
@@ -314,8 +315,22 @@ func runC37(c *an.Ctx) {
 	// (5) NearestPeers sorts before truncating; the comparator compares distances
 	var sortCall ssa.Instruction
 	for _, k := range an.Calls(nearest) {
-		if f := k.Common().StaticCallee(); f != nil && f.Name() == "sort" && strings.Contains(f.String(), "peerDistanceSorter") {
+		f := k.Common().StaticCallee()
+		if f == nil {
+			continue
+		}
+		// the sorter's own sort() method, or sort.Sort / sort.Stable applied to the sorter directly
+		if f.Name() == "sort" && strings.Contains(f.String(), "peerDistanceSorter") {
 			sortCall = k
+		}
+		if (f.String() == "sort.Sort" || f.String() == "sort.Stable") && len(k.Common().Args) == 1 {
+			a := k.Common().Args[0]
+			if mi, isMI := a.(*ssa.MakeInterface); isMI {
+				a = mi.X
+			}
+			if strings.Contains(a.Type().String(), "peerDistanceSorter") {
+				sortCall = k
+			}
 		}
 	}
 	okSort := sortCall != nil
